@@ -1,5 +1,7 @@
 import Mouette.Lemmas.BorderMesh
 import Mouette.Lemmas.BorderAll
+import Mouette.Lemmas.BorderPoly
+import Mouette.Lemmas.UmbrellaBorder
 import Mouette.Lemmas.RingCheck
 import Mouette.Model.BorderSpec
 /-!
@@ -113,6 +115,30 @@ theorem border_cycles_all_correct (hO : Oriented faces) (hR : InRange faces nv) 
     unfold boundaryVertices
     exact List.nodup_range.sublist List.filter_sublist
   exact cyclesAll_correct H hbvlen hnd
+
+/-- **edge set of the border**: the surface edge ids collected over all the cycles are a permutation of
+`boundary_edges` (each border edge exactly once, nothing else) -/
+theorem boundary_edges_collected (hO : Oriented faces) (hR : InRange faces nv) (hU : BorderUmbrella faces nv) :
+    ((cyclesAll (build nv faces true) (boundaryVertices (build nv faces true))).flatMap (·.2)).Perm
+      ((boundaryEdges (build nv faces true)).map some) := all_edges_perm hO hR hU
+
+/-- **`extract_boundary_of_surface` is exact**: it succeeds, the polyline has one vertex per boundary vertex,
+its edges are, one for one, `keyify(map[a], map[b])` for surface edges `(a,b)` that together are a permutation of
+`boundary_edges`, and the inverse of the returned index map sends each polyline edge back to its surface edge -/
+theorem boundary_polyline_correct (hO : Oriented faces) (hR : InRange faces nv) (hU : BorderUmbrella faces nv) :
+    ∃ pe m, extractBoundary (build nv faces true) (boundaryVertices (build nv faces true)) =
+        some (pe, m, (boundaryVertices (build nv faces true)).length) ∧
+      ∃ es : List (Option Nat), es.Perm ((boundaryEdges (build nv faces true)).map some) ∧ pe.length = es.length ∧
+        ∀ k (hk : k < es.length), ∃ e a b i j, es[k] = some e ∧ (build nv faces true).edges[e]? = some (a, b) ∧
+          lookupMap m a = some i ∧ lookupMap m b = some j ∧ pe[k]? = some (key2 i j) ∧
+          invLookup m i = some a ∧ invLookup m j = some b := extractBoundary_correct hO hR hU
+
+/-- the hypothesis `BorderUmbrella` follows from the umbrella condition of C01 `ring_sorted` at the boundary
+vertices (one path OR one cycle): at a boundary vertex the fan cannot be closed, and it is not empty -/
+theorem border_umbrella_of_umbrella (hO : Oriented faces)
+    (hU : ∀ A, A ∈ boundaryVertices (build nv faces true) →
+      ∃ ring, RingOpen (build nv faces true) A ring ∨ RingClosed (build nv faces true) A ring) :
+    BorderUmbrella faces nv := borderUmbrella_of_umbrella hO hU
 
 /-- the decidable forms evaluated by the C15 driver (`Model/BorderSpec.lean`) imply the hypotheses -/
 theorem inRangeB_sound (h : inRangeB faces nv = true) : InRange faces nv := by
